@@ -1,5 +1,5 @@
-//! Universe worlds: per chunk of types `T_k` one interface `i` with `f<k>: func(p0: T_k) -> T_k`,
-//! imported *and* exported by world `w` (so the export `f<k>` can echo through the import `f<k>`).
+//! Universe worlds: per chunk of types `T_k` one interface `i` with `fx<k>: func(p0: T_k) -> T_k` (`f32` / `f64` are WIT keywords),
+//! imported *and* exported by world `w` (so the export `fx<k>` can echo through the import `fx<k>`).
 //! Expected component-model names come from wit-parser's name mangler (trusted as a mangler,
 //! DESIGN §3.1), expected core signatures from `refabi::abi::flatten_functype`.
 
